@@ -415,6 +415,22 @@ Section Entries.
     destruct (zlist_eqb f str_uniprobe) eqn:E4; [apply zlist_eqb_eq in E4; congruence|]. reflexivity.
   Qed.
 
+  (* ---------------------------------------------------------------- object lifetimes *)
+
+  (* dropping the last name of an object (del + gc.collect()) leaves every other object as it is:
+     scanners keep the hits they are due to hand out, scores and matrices taken from motifs
+     their contents - whatever was derived from the deleted matrix or sequence keeps working *)
+  Theorem py_delete_leaves_others : forall st n m,
+    n <> m -> lookup _ _ _ _ _ (snd (run_call K st (KDelete n))) m = lookup _ _ _ _ _ st m.
+  Proof.
+    intros st n m Hnm. cbn [run_call]. destruct (lookup _ _ _ _ _ st n) as [o0|]; [|reflexivity]. cbn [snd].
+    clear o0. induction st as [|[k o] r IH]; [reflexivity|]. cbn [unbind lookup].
+    destruct (Nat.eqb k n) eqn:E1.
+    - apply Nat.eqb_eq in E1. subst k. rewrite IH.
+      destruct (Nat.eqb n m) eqn:E2; [apply Nat.eqb_eq in E2; congruence | reflexivity].
+    - cbn [lookup]. rewrite IH. reflexivity.
+  Qed.
+
   (* ---------------------------------------------------------------- invalid arguments *)
 
   (* argument handling never panics, whatever the core does: the validation of every argument
